@@ -114,7 +114,15 @@ package process
 //@ macro linCall(p *CallForm, D Set[string], sh *Name) bool =
 //@    argsExactly(p.parameters, 0, D) || (len(p.parameters) >= 1 && isProv(p.parameters[0].Ident, p.parameters[0].IsSelf, sh) && argsExactly(p.parameters, 1, D))
 
-//@ macro linNew(p *NewForm, D Set[string], sh *Name) bool = true
+// set difference, characterised by comprehension (exists and is unique)
+//@ spec minusSet(A Set[string], B Set[string]) Set[string] where forall x string :: result[x] <==> (A[x] && !B[x])
+
+// cut: the spawned term is axiomatic and uses exactly its free names, all taken from the context; a context name
+// shadowed by the new name must be one of them; the continuation gets the rest plus the new name
+//@ macro linNew(p *NewForm, D Set[string], sh *Name) bool = axiomatic(p.body) && subset(fnIdents(p.body), D) &&
+//@    (D[p.new_name_c.Ident] ==> fnIdents(p.body)[p.new_name_c.Ident]) &&
+//@    lin(p.body, fnIdents(p.body), addr(p, NewForm, new_name_c)) &&
+//@    lin(p.continuation_e, add(minusSet(D, fnIdents(p.body)), p.new_name_c.Ident), sh)
 
 //@ spec lin(f Form, D Set[string], sh *Name) bool =
 //@    (is(f, SendForm) ==> linSend(SendForm(f), D, sh)) &&
@@ -338,7 +346,7 @@ package process
 //@ macro setIf(S Set[string], c bool, x string) Set[string] = ite(c, add(S, x), S)
 //@ spec identsOf(ps []Name, n int) Set[string] = ite(n <= 0, emptyStrSet, setIf(identsOf(ps, n - 1), !ps[n-1].IsSelf, ps[n-1].Ident))
 //@ macro axiomatic(f Form) bool = is(f, SendForm) || is(f, SelectForm) || is(f, CloseForm) || is(f, ForwardForm) || is(f, CallForm) || is(f, CastForm)
-//@ macro fnIdents(f Form) Set[string] =
+//@ spec fnIdents(f Form) Set[string] =
 //@    ite(is(f, SendForm), setIf(setIf(setIf(emptyStrSet, !SendForm(f).to_c.IsSelf, SendForm(f).to_c.Ident), !SendForm(f).payload_c.IsSelf, SendForm(f).payload_c.Ident), !SendForm(f).continuation_c.IsSelf, SendForm(f).continuation_c.Ident),
 //@    ite(is(f, SelectForm), setIf(setIf(emptyStrSet, !SelectForm(f).to_c.IsSelf, SelectForm(f).to_c.Ident), !SelectForm(f).continuation_c.IsSelf, SelectForm(f).continuation_c.Ident),
 //@    ite(is(f, CloseForm), setIf(emptyStrSet, !CloseForm(f).from_c.IsSelf, CloseForm(f).from_c.Ident),
@@ -350,6 +358,8 @@ package process
 
 //@ contract interface Form.FreeNames(self)
 //@   ensures C14.fnAxiom: axiomatic(self) ==> listIs(result, fnIdents(self))
+//@   ensures C14.fnParams: is(self, CallForm) ==> (forall j int :: 0 <= j && j < len(CallForm(self).parameters) && !CallForm(self).parameters[j].IsSelf ==> fnIdents(self)[CallForm(self).parameters[j].Ident]) &&
+//@        (forall x string :: fnIdents(self)[x] ==> (exists j int :: 0 <= j && j < len(CallForm(self).parameters) && !CallForm(self).parameters[j].IsSelf && CallForm(self).parameters[j].Ident == x))
 //@   ensures C14.fnUnbound: axiomatic(self) && uninit(self) ==> (forall k int :: 0 <= k && k < len(result) ==> result[k].Channel == nil)
 //@   pure
 
@@ -357,6 +367,8 @@ package process
 //@   loop 1 invariant (forall k int :: 0 <= k && k < len(fn) ==> !fn[k].IsSelf && identsOf(p.parameters, idx + 1)[fn[k].Ident])
 //@   loop 1 invariant (forall x string :: identsOf(p.parameters, idx + 1)[x] ==> (exists k int :: 0 <= k && k < len(fn) && fn[k].Ident == x))
 //@   loop 1 invariant (forall k int :: 0 <= k && k < len(fn) ==> (exists j int :: 0 <= j && j <= idx && fn[k] == p.parameters[j]))
+//@   loop 1 invariant (forall j int :: 0 <= j && j <= idx && !p.parameters[j].IsSelf ==> identsOf(p.parameters, idx + 1)[p.parameters[j].Ident])
+//@   loop 1 invariant (forall x string :: identsOf(p.parameters, idx + 1)[x] ==> (exists j int :: 0 <= j && j <= idx && !p.parameters[j].IsSelf && p.parameters[j].Ident == x))
 
 //@ contract FormHasContinuation
 //@   ensures C05.hasCont: result == !axiomatic(form)
@@ -387,3 +399,10 @@ package process
 //@        (exists j int :: 0 <= j && j <= idx && names[j].Ident == namesFound[k].Ident && !skipArg(names[j], providerShadowName)))
 //@   loop 1 invariant (forall x string :: old(dom(gammaNameTypesCtx))[x] ==> has(gammaNameTypesCtx, x) || (exists k int :: 0 <= k && k < len(namesFound) && namesFound[k].Ident == x))
 //@   loop 1 invariant (forall j int :: 0 <= j && j <= idx && !skipArg(names[j], providerShadowName) ==> (exists k int :: 0 <= k && k < len(namesFound) && namesFound[k].Ident == names[j].Ident))
+
+// cut rule: what the two halves of the split context are when the spawned term and the continuation are checked
+//@ contract (*NewForm).typecheckForm
+//@   callsite C05.cutCallLeft process.Form.typecheckForm#1: dom(gammaLeftNameTypesCtx) == fnIdents(p.body)
+//@   callsite C05.cutCallRight process.Form.typecheckForm#2: dom(gammaRightNameTypesCtx) == add(minusSet(old(dom(gammaNameTypesCtx)), fnIdents(p.body)), p.new_name_c.Ident)
+//@   callsite C05.cutLeft process.Form.typecheckForm#3: dom(gammaLeftNameTypesCtx) == fnIdents(p.body)
+//@   callsite C05.cutRight process.Form.typecheckForm#4: dom(gammaRightNameTypesCtx) == add(minusSet(old(dom(gammaNameTypesCtx)), fnIdents(p.body)), p.new_name_c.Ident)
